@@ -83,7 +83,9 @@ def is_atomic_vector(value: Any) -> bool:
     not represent any vector operation, such as `VectorCross`.
     """
 
-    return isinstance(value, (VectorSymbol, AppliedVectorFunction))
+    # NOTE: an unevaluated derivative cannot be reduced by the products any further, treating it as a
+    # compound expression makes the products re-evaluate themselves forever
+    return isinstance(value, (VectorSymbol, AppliedVectorFunction, VectorDerivative))
 
 
 @cacheit
